@@ -190,6 +190,19 @@ def run_property(prop, tier='quick', seed=0, replay=None):
     if conc_err and status == 0:
         fault = ('checker-fault', 'concrete contract evaluation failed: ' + ' | '.join(conc_err)[:1500])
         status = 3
+    # undecided obligations: search harder for a concrete failing input of that function
+    if unknown and concrete and not os.environ.get('VERIF_NO_CONCRETE'):
+        from . import crosscheck as _cc
+        for fn in sorted(set(obligation_function(r.ob.oid, concrete) for r in unknown) - {None}):
+            if conc_fail.get(fn):
+                continue
+            mod_, q_ = fn.split(':')
+            c_ = run.R.contracts[(mod_, q_)]
+            res = _cc.run_contract(c_, run.repo.func(mod_, q_), run.R.spec_funcs, run.R.generators,
+                                   int(os.environ.get('VERIF_CONCRETE_DEEP_N', 2000)), run.seed + 1)
+            concrete[fn]['deep_search_evaluations'] = res['evaluations']
+            for fl in res['failures']:
+                conc_fail.setdefault(fn, []).append(fl)
     # a timeout on an obligation of a function for which a concrete failing input exists is a violation
     still_unknown = []
     for r in unknown:
